@@ -31,14 +31,14 @@ type tsv struct {
 	t    time.Time
 }
 
-func stamps(now time.Time, thr time.Duration) []tsv {
+func stamps(now time.Time, thr time.Duration, thorough bool) []tsv {
 	n := exact(now)
 	off := func(name string, d *big.Int) tsv { return tsv{name, fromExact(new(big.Int).Add(n, d))} }
 	y := new(big.Int).Mul(big.NewInt(365*24*3600), e9)
 	th := big.NewInt(int64(thr))
 	neg := func(x *big.Int) *big.Int { return new(big.Int).Neg(x) }
 	add := func(x *big.Int, k int64) *big.Int { return new(big.Int).Add(x, big.NewInt(k)) }
-	return []tsv{
+	base := []tsv{
 		{"zero", time.Time{}},
 		off("now-300y", neg(new(big.Int).Mul(y, big.NewInt(300)))),
 		off("now-thr-1ns", add(neg(th), -1)),
@@ -51,6 +51,19 @@ func stamps(now time.Time, thr time.Duration) []tsv {
 		off("now+300y", new(big.Int).Mul(y, big.NewInt(300))),
 		off("now+5000y", new(big.Int).Mul(y, big.NewInt(5000))),
 	}
+	if !thorough {
+		return base
+	}
+	maxD := big.NewInt(math.MaxInt64)
+	return append(base,
+		off("now+thr-1ns", add(th, -1)),
+		off("now+thr+1ns", add(th, 1)),
+		off("now-maxDuration", neg(maxD)),
+		off("now-maxDuration-1ns", add(neg(maxD), -1)),
+		off("now+maxDuration", maxD),
+		off("now+maxDuration+1ns", add(maxD, 1)),
+		off("now-1h", big.NewInt(-3600e9)),
+	)
 }
 
 func main() {
@@ -58,12 +71,18 @@ func main() {
 	c.Set("rule", "product of 11 boundary timestamps for each of LastConnected,P2PSynced,BecameValidator,ExternalSelfEventCreated,ExternalSelfEventDetected x 6 thresholds x PeersNum {0,1} x 2 Now values; reference in exact big-integer nanoseconds; non-trivial = inputs where some timestamp is within 1ns of the threshold boundary or outside the +-292y Duration range")
 	nows := []time.Time{time.Date(2026, 9, 21, 12, 0, 0, 123456789, time.UTC), time.Date(1970, 1, 1, 0, 0, 0, 0, time.UTC)}
 	thrs := []time.Duration{-time.Second, 0, 1, time.Hour, math.MaxInt64 - 1, math.MaxInt64}
+	thorough := !c.Quick()
+	if thorough {
+		thrs = append(thrs, time.Second, 10*time.Minute)
+		nows = append(nows, time.Date(2200, 1, 1, 0, 0, 0, 999999999, time.UTC))
+	}
+	nT := len(stamps(nows[0], thrs[0], thorough))
 	maxI := big.NewInt(math.MaxInt64)
 	type item struct{ ni, ti, a int }
 	var items []item
 	for ni := range nows {
 		for ti := range thrs {
-			for a := 0; a < 11; a++ {
+			for a := 0; a < nT; a++ {
 				items = append(items, item{ni, ti, a})
 			}
 		}
@@ -71,7 +90,7 @@ func main() {
 	c.Parallel(len(items), func(ii int) {
 		it := items[ii]
 		now, thr := nows[it.ni], thrs[it.ti]
-		ts := stamps(now, thr)
+		ts := stamps(now, thr, thorough)
 		nowX := exact(now)
 		since := make([]*big.Int, len(ts))
 		for i := range ts {
@@ -80,10 +99,10 @@ func main() {
 		thrB := big.NewInt(int64(thr))
 		var evals, nontriv int64
 		idx := [5]int{it.a}
-		for idx[1] = 0; idx[1] < 11; idx[1]++ {
-			for idx[2] = 0; idx[2] < 11; idx[2]++ {
-				for idx[3] = 0; idx[3] < 11; idx[3]++ {
-					for idx[4] = 0; idx[4] < 11; idx[4]++ {
+		for idx[1] = 0; idx[1] < nT; idx[1]++ {
+			for idx[2] = 0; idx[2] < nT; idx[2]++ {
+				for idx[3] = 0; idx[3] < nT; idx[3]++ {
+					for idx[4] = 0; idx[4] < nT; idx[4]++ {
 						for peers := 0; peers < 2; peers++ {
 							s := doublesign.SyncStatus{PeersNum: peers, Now: now, Startup: now,
 								LastConnected: ts[idx[0]].t, P2PSynced: ts[idx[1]].t, BecameValidator: ts[idx[2]].t,
@@ -150,7 +169,7 @@ func main() {
 			}
 		}
 		// parallel instance heuristic: created x startup
-		for a := 0; a < 11; a++ {
+		for a := 0; a < nT; a++ {
 			for b := 0; b < 11; b++ {
 				s := doublesign.SyncStatus{Now: now, Startup: ts[a].t, ExternalSelfEventCreated: ts[b].t}
 				got := doublesign.DetectParallelInstance(s, thr)
@@ -167,7 +186,7 @@ func main() {
 	})
 	c.Set("exhaustive", !c.Capped())
 	c.Sample(map[string]interface{}{"now": nows[0].String(), "threshold": "1h", "LastConnected": "now-thr+1ns", "others": "zero", "expect": "error, wait=1ns"})
-	c.Sample(map[string]interface{}{"now": nows[0].String(), "threshold": "1h", "BecameValidator": fmt.Sprint(stamps(nows[0], time.Hour)[9].t), "expect": "error, wait=MaxInt64"})
+	c.Sample(map[string]interface{}{"now": nows[0].String(), "threshold": "1h", "BecameValidator": fmt.Sprint(stamps(nows[0], time.Hour, false)[9].t), "expect": "error, wait=MaxInt64"})
 	c.Assume("timestamps carry no monotonic clock reading (constructed with time.Unix)")
 	c.Finish()
 }
